@@ -197,6 +197,8 @@ class C03:
             if "seed" in spec:
                 kw["seed"] = spec["seed"]
             K.take_outside_calls()
+            from sim.world import reset_coba_globals
+            reset_coba_globals()       # "alone" = a fresh interpreter
             r_alone = cb.Experiment([(env, lrn, val)]).run(**kw)
             alone_calls = K.take_outside_calls()
             eval_injected = {c[1] for c in alone_calls if c[0] == "injected" and c[2] == "eval"}
